@@ -90,10 +90,10 @@ func init() {
 	core.Register(&core.Check{
 		ID:    "C08",
 		Level: "exploration",
-		Rule: "the C01 history generators (remove, rename-over, truncating open, directory growth/shrink, open handles incl. several handles on one file (each with its own idea of the size), refused calls, fill/release/refill) on FAT12/16/32 volumes across the cluster-size table boundaries (FAT32 <=260 MiB, >260 MiB, up to 33 GiB sparse; 512- and 4096-byte sectors), at start offsets 0/512/1 MiB/4 GiB+512, and on a 6 GiB FAT32 volume whose clusters below the 4 GiB offset were marked bad beforehand, so that the history works in clusters on both sides of that offset; after Create and after EVERY call (accepted or refused) the raw bytes of the volume are parsed by the independent checker fatck: boot sector vs range, FAT32 backup boot sector and FSInfo, FAT copies identical, every chain in range / terminated / acyclic / long enough, no cross-links, no lost clusters; non-trivial = history with >=1 accepted mutating call; distinct = distinct (volume, executed history)",
+		Rule: "the C01 history generators (remove, rename-over, truncating open, directory growth/shrink, open handles incl. several handles on one file (each with its own idea of the size), refused calls, fill/release/refill) on FAT12/16/32 volumes across the cluster-size table boundaries (FAT32 <=260 MiB, >260 MiB, up to 33 GiB sparse; 512- and 4096-byte sectors), at start offsets 0/512/1 MiB/4 GiB+512, and on a 6 GiB FAT32 volume whose clusters below the 4 GiB offset were marked bad beforehand, so that the history works in clusters on both sides of that offset; after Create and after EVERY call (accepted or refused) the raw bytes of the volume are parsed by the independent checker fatck: boot sector vs range, FAT32 backup boot sector and FSInfo, FAT copies identical, every chain in range / terminated / acyclic / long enough, no cross-links, no lost clusters; a third of the random histories run on a volume whose device offset equals the offset of its own data area (a position computed without, or twice with, the start then falls into the volume's own boot sector / FSInfo / FAT), and a quarter go on in a new session on the re-opened image every 11 calls; non-trivial = history with >=1 accepted mutating call; distinct = distinct (volume, executed history)",
 		Assumptions: []string{"fatck (internal/fatck, written from the Microsoft FAT specification, calibrated on hand-made volumes) is correct", "rules outside the property's statement (chain longer than needed, '..' cluster value, LFN order, reserved FAT entries) are recorded but never reported"},
 		MinSigs:   map[string]int{"quick": 50, "thorough": 800},
-		NeedMarks: []string{"range formatted a second time over a populated volume", "fat12", "fat16", "fat32", "ENOSPC reached", "volume beyond 4 GiB", "clusters in use on both sides of volume offset 4 GiB", "several handles on one file with different remembered sizes"},
+		NeedMarks: []string{"history continued in a new session on the re-opened image", "volume whose start equals the offset of its data area", "range formatted a second time over a populated volume", "fat12", "fat16", "fat32", "ENOSPC reached", "volume beyond 4 GiB", "clusters in use on both sides of volume offset 4 GiB", "several handles on one file with different remembered sizes"},
 		CPUSec:    900,
 		Cases:     c08Cases,
 		Run:       func(c core.Case, env *core.Env) core.Result { return runFatCase("C08", c, env) },
